@@ -187,6 +187,9 @@ func concretize(t *Term) uint64 {
 	} else {
 		p.pos++
 	}
+	if len(excl) > 1024 {
+		panic(pathAbort{"a symbolic value used as a size or bound has more than 1024 feasible values: not enumerated", true})
+	}
 	cons := termTrue
 	for _, e := range excl {
 		cons = mkAnd(cons, mkNot(mkEq(t, mkBV(t.sort, e))))
